@@ -433,7 +433,8 @@ def conc_shard(binp, mode, acceptor, seed, first, runs, extra, tmpdir, idx):
 def run_conc(res, binp, mode, acceptor, seed, total, extra=(), tag=None, label=None, shards=None):
     """sharded controlled-schedule runs; trace acceptance by the Lean model + Go monitors"""
     label = label or f"{mode} {' '.join(extra)}"
-    shards = shards or min(NCPU, max(1, total // 500))
+    # (runs of the "big" families are ~100x longer than the others: shard them finely)
+    shards = shards or (min(NCPU, max(1, total // 8)) if "big" in extra else min(NCPU, max(1, total // 500)))
     per = (total + shards - 1) // shards
     tmpdir = scratch_dir()
     with ThreadPoolExecutor(max_workers=shards) as ex:
